@@ -10,6 +10,8 @@
 //!   API ::= sync | tokio | async   OP ::= flush | send   CTX ::= plain | mt | ct   RX ::= live | stalled | gone | hangup
 //!   TIMEOUT_MS may also be `max` (Duration::MAX) or `maxsecs` (u64::MAX seconds). RX = late: the receiver is started
 //!   30 ms after the call, so the call has to wait and then succeeds because the receiver drains the queue.
+//!   RX = refill (blocking_send, full queue): one take at 0.7·T, the queue refilled at once from inside an earlier
+//!   when_empty callback, no further take → output `err(999),within-budget` (returned by 1.4·T) | `…,over-budget`.
 //!   API = async awaits `emit_batcher::tokio::{flush, send}` inside a current-thread runtime (CTX = ct); `flush` under
 //!   a paused clock (virtual time). RX = hangup (async flush only): the receiver takes the batch and the watcher,
 //!   never finishes, and is torn down after 10 ms — the oneshot hangs up and the flush resolves `true`.
@@ -60,10 +62,24 @@ fn run_c09(line: &str) -> String {
     keep_fails(&run_blocking(line), "c09", |o| o.to_string())
 }
 fn run_c08(line: &str) -> String {
-    keep_fails(&run_blocking(line), "c08", |o| if o == "panic" { "panic".into() } else { "returned".into() })
+    keep_fails(&run_blocking(line), "c08", |o| {
+        if o == "panic" {
+            "panic".into()
+        } else if o.contains("-budget") {
+            o.to_string()
+        } else {
+            "returned".into()
+        }
+    })
 }
 fn gen_all(rng: &mut Rng, tier: Tier, n: usize) -> Vec<String> {
-    gen_blocking(rng, tier, n, &["flush", "send"])
+    // the timing cases (remaining-time accounting of send_or_wait, T = 500 ms) always come first
+    let mut v: Vec<String> = [("sync", "plain"), ("tokio", "mt"), ("tokio", "ct")]
+        .iter()
+        .map(|(api, ctx)| format!("(bl {} send {} refill 1 1 500)", api, ctx))
+        .collect();
+    v.extend(gen_blocking(rng, tier, n, &["flush", "send"]));
+    v
 }
 fn gen_flush(rng: &mut Rng, tier: Tier, n: usize) -> Vec<String> {
     gen_blocking(rng, tier, n, &["flush"])
@@ -101,6 +117,11 @@ enum Rx {
     /// stalled when the call starts (so the call genuinely has to wait), started 30 ms later: it drains the queue
     /// and the call succeeds — whatever the timeout, including `Duration::MAX`
     Late,
+    /// (blocking_send only; remaining-time accounting of send_or_wait) the queue is full; exactly one take
+    /// happens at 0.7·T and a `when_empty` callback registered earlier refills the queue at once, so the woken
+    /// sender loses the race and has to wait again — for the REMAINING 0.3·T, not for a whole new T. No further
+    /// take: the call must hand the item back at ≈ T.
+    Refill,
     /// (async flush only) the receiver takes the batch together with the flush watcher, never finishes it, and is
     /// torn down 10 ms later: the oneshot hangs up
     Hangup,
@@ -160,6 +181,7 @@ fn parse(line: &str) -> Option<Case> {
             "stalled" => Rx::Stalled,
             "gone" => Rx::Gone,
             "late" => Rx::Late,
+            "refill" => Rx::Refill,
             "hangup" => Rx::Hangup,
             _ => return None,
         },
@@ -199,9 +221,17 @@ fn run_blocking(line: &str) -> String {
         return "bad-case".into();
     };
     if c.api == Api::Async {
+        if c.rx == Rx::Refill {
+            return "bad-case".into();
+        }
         return run_async(&c);
     }
-    if c.rx == Rx::Hangup {
+    // the timing verdict needs a budget that dwarfs scheduling noise: 200 ms ≤ T ≤ 5 s
+    let refill_ok = c.op == OpK::Send
+        && c.prefill >= c.cap
+        && c.timeout >= Duration::from_millis(200)
+        && c.timeout <= Duration::from_secs(5);
+    if c.rx == Rx::Hangup || (c.rx == Rx::Refill && !refill_ok) {
         return "bad-case".into();
     }
     let (sender, receiver): (Sender<Vec<u64>>, Receiver<Vec<u64>>) = emit_batcher::bounded(c.cap);
@@ -237,6 +267,31 @@ fn run_blocking(line: &str) -> String {
             });
         }
     }
+    let stop_refill = Arc::new(std::sync::atomic::AtomicBool::new(false));
+    if c.rx == Rx::Refill {
+        // registered first, so it runs before the blocked sender's own trigger: the freed slot is gone at once
+        let s2 = sender.clone();
+        sender.when_empty(move || {
+            let _ = s2.try_send(777);
+        });
+        // a hand-polled receiver that performs exactly one take at 0.7·T and then parks
+        let r = receiver.take().unwrap();
+        let at = timeout.mul_f64(0.7);
+        let stop = stop_refill.clone();
+        std::thread::spawn(move || {
+            std::thread::sleep(at);
+            let mut fut = Box::pin(r.exec(
+                |_d| std::future::pending::<()>(),
+                |_b: Vec<u64>| std::future::pending::<Result<(), BatchError<Vec<u64>>>>(),
+            ));
+            let mut cx = std::task::Context::from_waker(std::task::Waker::noop());
+            let _ = std::future::Future::poll(fut.as_mut(), &mut cx);
+            while !stop.load(std::sync::atomic::Ordering::SeqCst) {
+                std::thread::sleep(Duration::from_millis(5));
+            }
+            drop(fut);
+        });
+    }
     let started = Instant::now();
     let out = {
         let sender = sender.clone();
@@ -261,8 +316,33 @@ fn run_blocking(line: &str) -> String {
         }
     };
     let wall = started.elapsed();
+    stop_refill.store(true, std::sync::atomic::Ordering::SeqCst);
     drop(receiver);
     let mut fails: Vec<&str> = Vec::new();
+    if c.rx == Rx::Refill {
+        // HEAD returns at ≈ T; a send_or_wait that grants every wait round the full timeout at ≈ 1.7·T.
+        // The bound 1.4·T sits in the middle; the output carries the verdict only, never the measured time.
+        let within = wall <= timeout.mul_f64(1.4);
+        if !within {
+            fails.push("c08-timeout");
+        }
+        if out == Out::Panic {
+            fails.push("c08-panic");
+        }
+        let o = match out {
+            Out::SendErr(Some(x)) => format!("err({})", x),
+            Out::SendErr(None) => "err(noitem)".into(),
+            Out::SendOk => "ok".into(),
+            Out::Panic => "panic".into(),
+            Out::Flush(b) => format!("{}", b),
+        };
+        let mut s = format!("{},{}", o, if within { "within-budget" } else { "over-budget" });
+        if !fails.is_empty() {
+            s.push_str("\tFAIL:");
+            s.push_str(&fails.join("+"));
+        }
+        return s;
+    }
     if out == Out::Panic {
         fails.push("c08-panic");
     }
